@@ -58,4 +58,10 @@ impl<'a> Interpreter<'a> {
     pub fn drop_layer(self) -> VariableMap {
         self.variables
     }
+
+    /// Names declared in the top layer (verification hook).
+    #[cfg(feature = "verif")]
+    pub fn verif_names(&self) -> Vec<Arc<str>> {
+        self.variables.keys().cloned().collect()
+    }
 }
